@@ -302,35 +302,26 @@ func rulesC16(c *Ctx) {
 			}
 		}
 		c.Need(flag != nil, "applySchema: flag guarding the return of the original bytes")
-		okFlag := true
-		nTrue := 0
+		okFlag := !as.addressTaken(flag)
+		// once ApplyDefaults has run, the flag is only ever given the constant true …
 		for _, w := range as.writesToVar(as.Body, flag, true) {
-			st, isAs := w.(*ast.AssignStmt)
-			if !isAs || len(st.Rhs) != 1 {
-				okFlag = false
+			wv := ag.VertexOf(w)
+			after := wv < 0 // in a literal: could run at any time
+			for _, dv := range defV {
+				if wv >= 0 && ag.ReachableFrom(dv)[wv] {
+					after = true
+				}
+			}
+			if !after {
 				continue
 			}
-			switch exprStr(st.Rhs[0]) {
-			case "false":
-				if ag.ReachableFrom(defV[0])[ag.VertexOf(w)] {
-					okFlag = false
-				}
-			case "true":
-				nTrue++
-				dom := false
-				for _, dv := range defV {
-					if ag.Dominates(dv, ag.VertexOf(w)) {
-						dom = true
-					}
-				}
-				if !dom {
-					okFlag = false
-				}
-			default:
-				okFlag = false // computed from something else (e.g. a size comparison): not a faithful record
+			st, isAs := w.(*ast.AssignStmt)
+			if !isAs || len(st.Rhs) != 1 || exprStr(st.Rhs[0]) != "true" {
+				okFlag = false // false, or computed from something else (e.g. a size comparison): not a faithful record
 			}
 		}
-		// each ApplyDefaults success path sets the flag
+		// … and it is true on every path from an ApplyDefaults to the validation: set there, or already set where the
+		// call is made (the call is made because the flag is set)
 		for _, dv := range defV {
 			okp, _ := ag.MustPass(dv, valV, func(v int) bool {
 				for _, w := range as.writesToVar(ag.Node(v), flag, false) {
@@ -340,11 +331,11 @@ func rulesC16(c *Ctx) {
 				}
 				return false
 			})
-			if !okp {
+			if !okp && !hasAtom(ag.GuardsAt(dv), func(a Atom) bool { return a.Val && as.ObjOf(a.E) == flag }) {
 				okFlag = false
 			}
 		}
-		c.Check(okFlag && nTrue == len(defV), "applySchema:defaulted-value-is-returned", as, nil, "the 'defaults applied' flag is set to the constant true after every ApplyDefaults and to nothing else, so the original bytes are returned only when no defaults were applied; otherwise the handler would receive (or the client would see) the pre-default JSON although validation ran on the defaulted value")
+		c.Check(okFlag, "applySchema:defaulted-value-is-returned", as, nil, "the 'defaults applied' flag is set to the constant true after every ApplyDefaults and to nothing else, so the original bytes are returned only when no defaults were applied; otherwise the handler would receive (or the client would see) the pre-default JSON although validation ran on the defaulted value")
 		// the re-marshalled value is the validated one
 		okM := false
 		for _, call := range as.AllCalls(as.Body, false) {
